@@ -384,6 +384,9 @@ class Arbiter(object):
                 # if nothing but the number of processes is
                 # changed, just changes this
                 yield w.set_numprocesses(int(new_watcher_cfg['numprocesses']))
+                # keep the reference config in step, or the next reload
+                # compares the file against an outdated numprocesses
+                w._cfg['numprocesses'] = new_watcher_cfg['numprocesses']
                 changed = False
             else:
                 changed = len(diff) > 0
